@@ -394,18 +394,300 @@ def extender (xs : List Ext) : List Nat := if xs.isEmpty then [0, 0, 0, 0] else 
 theorem extender_length (xs : List Ext) : (extender xs).length = 4 := by
   unfold extender; split <;> rfl
 
-/-- the offset a successful single-file save writes into the header -/
-def chosenOffset (fmt : Fmt) (xs : List Ext) (userOff : Nat) : Nat :=
-  if userOff = 0 then (minOffset fmt xs).toNat else userOff
+/-! ### precision of the `vox_offset` field -/
 
-/-- a single-file save with a library-chosen or large-enough explicit offset: the exact file written -/
+theorem f32exp_small (fuel n : Nat) (h : n < 16777216) : f32exp fuel n = 0 := by
+  cases fuel <;> simp [f32exp, h]
+
+/-- below 2^24 every natural number is a float32 -/
+theorem f32round_small (n : Nat) (h : n < 16777216) : f32round n = n := by
+  simp [f32round, f32exp_small n n h, Nat.mod_one]
+
+/-- the exponent found is at most `j` when `n < 2^24 * 2^j` -/
+theorem f32exp_le : ∀ (fuel n j : Nat), n < 16777216 * 2 ^ j → f32exp fuel n ≤ j := by
+  intro fuel
+  induction fuel with
+  | zero => intro n j _; simp [f32exp]
+  | succ fuel ih =>
+      intro n j h
+      unfold f32exp
+      split
+      · omega
+      · cases j with
+        | zero => omega
+        | succ j =>
+            have : n / 2 < 16777216 * 2 ^ j := by rw [Nat.pow_succ] at h; omega
+            have := ih (n / 2) j this
+            omega
+
+/-- … and more than `j` when `2^24 * 2^j ≤ n` (given enough fuel) -/
+theorem f32exp_gt : ∀ (fuel n j : Nat), j < fuel → 16777216 * 2 ^ j ≤ n → j < f32exp fuel n := by
+  intro fuel
+  induction fuel with
+  | zero => intro n j h _; omega
+  | succ fuel ih =>
+      intro n j hj h
+      have h1 : 1 ≤ 2 ^ j := Nat.one_le_two_pow
+      unfold f32exp
+      split
+      · omega
+      · cases j with
+        | zero => omega
+        | succ j =>
+            have : 16777216 * 2 ^ j ≤ n / 2 := by rw [Nat.pow_succ] at h; omega
+            have := ih (n / 2) j (by omega) this
+            omega
+
+/-- the binade of `n`: `k = f32exp n n` is 0 below 2^24 and otherwise `2^(23+k) ≤ n < 2^(24+k)` -/
+theorem f32exp_spec (n : Nat) :
+    n < 16777216 * 2 ^ f32exp n n ∧ (f32exp n n = 0 ∨ 16777216 * 2 ^ (f32exp n n - 1) ≤ n) := by
+  constructor
+  · apply Nat.lt_of_not_le
+    intro h
+    have hk : f32exp n n < 2 ^ f32exp n n := Nat.lt_two_pow_self
+    have := f32exp_gt n n (f32exp n n) (by omega) h
+    omega
+  · by_cases h0 : f32exp n n = 0
+    · exact Or.inl h0
+    · right
+      apply Nat.le_of_not_lt
+      intro h
+      have := f32exp_le n n _ h
+      omega
+
+theorem f32exp_unique (n k : Nat) (h1 : n < 16777216 * 2 ^ k) (h2 : k = 0 ∨ 16777216 * 2 ^ (k - 1) ≤ n) :
+    f32exp n n = k := by
+  have hle := f32exp_le n n k h1
+  rcases h2 with h0 | h2
+  · omega
+  · by_cases h0 : k = 0
+    · omega
+    · have hk : k - 1 < 2 ^ (k - 1) := Nat.lt_two_pow_self
+      have := f32exp_gt n n (k - 1) (by omega) h2
+      omega
+
+/-- multiples of 16 below 2^28 are float32 values (4 spare bits) -/
+theorem f32round_mul16 (n : Nat) (h16 : n % 16 = 0) (h : n < 268435456) : f32round n = n := by
+  have hk := f32exp_le n n 4 (by omega)
+  unfold f32round
+  generalize f32exp n n = k at hk
+  obtain rfl | rfl | rfl | rfl | rfl : k = 0 ∨ k = 1 ∨ k = 2 ∨ k = 3 ∨ k = 4 := by omega
+  all_goals simp only [Nat.reducePow]
+  all_goals (rw [if_neg (by omega)]; omega)
+
+/-- what rounding can return: with `P` the spacing, the multiple of `P` at or below `n`, or the next one -/
+theorem f32round_cases (n : Nat) :
+    f32round n = n - n % 2 ^ f32exp n n ∨ f32round n = n - n % 2 ^ f32exp n n + 2 ^ f32exp n n := by
+  unfold f32round
+  simp only []
+  split
+  · exact Or.inr rfl
+  · exact Or.inl rfl
+
+/-- a value rounded DOWN is in the same binade, so one spacing up from it is above `n` -/
+theorem f32next_round (n : Nat) (h : f32round n < n) :
+    f32next (f32round n) = n - n % 2 ^ f32exp n n + 2 ^ f32exp n n ∧ n < f32next (f32round n) := by
+  have hP : 0 < 2 ^ f32exp n n := Nat.pow_pos (by omega)
+  have hr : n % 2 ^ f32exp n n < 2 ^ f32exp n n := Nat.mod_lt _ hP
+  have hdm := Nat.div_add_mod n (2 ^ f32exp n n)
+  obtain ⟨hub, hlb⟩ := f32exp_spec n
+  have hs : f32round n = n - n % 2 ^ f32exp n n := by
+    rcases f32round_cases n with h' | h'
+    · exact h'
+    · omega
+  have hk0 : f32exp n n ≠ 0 := by
+    intro h0
+    rw [h0] at hs
+    simp [Nat.mod_one] at hs
+    omega
+  have hlb' : 16777216 * 2 ^ (f32exp n n - 1) ≤ n := by
+    rcases hlb with h0 | h'
+    · exact absurd h0 hk0
+    · exact h'
+  have hpow : 2 ^ f32exp n n = 2 ^ (f32exp n n - 1) * 2 := by
+    rw [← Nat.pow_succ]; congr 1; omega
+  -- the quotient has a full 24-bit significand
+  have hq : 8388608 ≤ n / 2 ^ f32exp n n := by
+    rw [Nat.le_div_iff_mul_le hP]; omega
+  have hmul : 2 ^ f32exp n n * 8388608 ≤ 2 ^ f32exp n n * (n / 2 ^ f32exp n n) := Nat.mul_le_mul_left _ hq
+  have hk' : f32exp (f32round n) (f32round n) = f32exp n n := by
+    apply f32exp_unique
+    · omega
+    · right; rw [hs]; omega
+  unfold f32next
+  rw [hk', hs]
+  exact ⟨rfl, by omega⟩
+
+/-- multiples of 16 stay multiples of 16 (the spacing is 1, 2, 4, 8, 16 below 2^28 and a multiple of 32 above) -/
+theorem f32_mod16 (n : Nat) (h16 : n % 16 = 0) :
+    (n - n % 2 ^ f32exp n n) % 16 = 0 ∧ (n - n % 2 ^ f32exp n n + 2 ^ f32exp n n) % 16 = 0 ∨ f32round n = n := by
+  by_cases h : n < 268435456
+  · exact Or.inr (f32round_mul16 n h16 h)
+  · left
+    have hk : 4 < f32exp n n := f32exp_gt n n 4 (by omega) (by omega)
+    have hpow : 2 ^ f32exp n n = 16 * 2 ^ (f32exp n n - 4) := by
+      rw [show (16 : Nat) = 2 ^ 4 from rfl, ← Nat.pow_add]; congr 1; omega
+    have hdm := Nat.div_add_mod n (2 ^ f32exp n n)
+    have hs : n - n % 2 ^ f32exp n n = 16 * (2 ^ (f32exp n n - 4) * (n / 2 ^ f32exp n n)) := by
+      rw [← Nat.mul_assoc, ← hpow]; omega
+    constructor <;> omega
+
+/-- a value the field holds exactly -/
+def Fmt.Exact (fmt : Fmt) (n : Nat) : Prop := fmt.offRepr n = n
+
+instance (fmt : Fmt) (n : Nat) : Decidable (fmt.Exact n) := inferInstanceAs (Decidable (fmt.offRepr n = n))
+
+theorem offRepr_zero (fmt : Fmt) : fmt.offRepr 0 = 0 := by
+  unfold Fmt.offRepr; split
+  · exact f32round_small 0 (by omega)
+  · rfl
+
+theorem exact_of_int (fmt : Fmt) (h : fmt.voxF32 = false) (n : Nat) : fmt.Exact n := by
+  unfold Fmt.Exact Fmt.offRepr; rw [h]; rfl
+
+theorem exact_small (fmt : Fmt) (n : Nat) (h : n < 16777216) : fmt.Exact n := by
+  unfold Fmt.Exact Fmt.offRepr; split
+  · exact f32round_small n h
+  · rfl
+
+theorem exact_mul16 (fmt : Fmt) (n : Nat) (h16 : n % 16 = 0) (h : n < 268435456) : fmt.Exact n := by
+  unfold Fmt.Exact Fmt.offRepr; split
+  · exact f32round_mul16 n h16 h
+  · rfl
+
+/-- the value the library fills in is never below the value it wanted, equals it when representable, and is a
+    multiple of 16 when the wanted value is — for EVERY natural number -/
+theorem offFill_spec (fmt : Fmt) (m : Nat) :
+    m ≤ fmt.offFill m ∧ (fmt.Exact m → fmt.offFill m = m) ∧ (m % 16 = 0 → fmt.offFill m % 16 = 0) := by
+  unfold Fmt.offFill Fmt.Exact
+  simp only []
+  by_cases hf : fmt.voxF32 = true
+  · have hrep : fmt.offRepr m = f32round m := by unfold Fmt.offRepr; rw [if_pos hf]
+    have hnext : ∀ s, fmt.offNext s = f32next s := by intro s; unfold Fmt.offNext; rw [if_pos hf]
+    rw [hrep]
+    by_cases hlt : f32round m < m
+    · obtain ⟨hn, hgt⟩ := f32next_round m hlt
+      rw [if_pos hlt, hnext]
+      refine ⟨by omega, fun h => by omega, fun h16 => ?_⟩
+      rcases f32_mod16 m h16 with ⟨_, h2⟩ | h2
+      · rw [hn]; exact h2
+      · omega
+    · rw [if_neg hlt]
+      refine ⟨by omega, fun h => h, fun h16 => ?_⟩
+      rcases f32_mod16 m h16 with ⟨h1, h2⟩ | h2
+      · rcases f32round_cases m with h' | h' <;> rw [h'] <;> assumption
+      · rw [h2]; exact h16
+  · have hrep : fmt.offRepr m = m := by unfold Fmt.offRepr; rw [if_neg hf]
+    rw [hrep, if_neg (by omega)]
+    exact ⟨by omega, fun _ => rfl, fun h => h⟩
+
+/-- the offset a successful single-file save leaves in the header FIELD (and writes the data at) -/
+def chosenOffset (fmt : Fmt) (xs : List Ext) (userOff : Nat) : Nat :=
+  if fmt.offRepr userOff = 0 then fmt.offFill (minOffset fmt xs).toNat else fmt.offRepr userOff
+
+theorem chooseOffset_eq (fmt : Fmt) (xs : List Ext) (userOff : Nat)
+    (hfit : minOffset fmt xs ≤ (chosenOffset fmt xs userOff : Int)) :
+    chooseOffset fmt xs userOff = .ok ((chosenOffset fmt xs userOff : Nat) : Int) := by
+  unfold chooseOffset chooseOffsetT
+  unfold chosenOffset at hfit ⊢
+  simp only []
+  by_cases h0 : fmt.offRepr userOff = 0
+  · rw [if_pos h0, if_pos h0]; rfl
+  · rw [if_neg h0] at hfit
+    have hm : minOffset fmt xs = (fmt.singleOff : Int) + totalSize xs := rfl
+    rw [if_neg h0, if_neg h0, if_neg (by omega)]
+
+/-- the STORED offset leaves room: the only thing the file-level theorems need of the field's precision.
+    It holds whenever the values involved are exact (`fits_of_exact`), and also when rounding goes UP. -/
+def Fits (fmt : Fmt) (xs : List Ext) (userOff : Nat) : Prop :=
+  minOffset fmt xs ≤ (chosenOffset fmt xs userOff : Int)
+
+instance (fmt : Fmt) (xs : List Ext) (userOff : Nat) : Decidable (Fits fmt xs userOff) :=
+  inferInstanceAs (Decidable (minOffset fmt xs ≤ (chosenOffset fmt xs userOff : Int)))
+
+theorem fits_of_exact (fmt : Fmt) (xs : List Ext) (userOff : Nat)
+    (hoff : userOff = 0 ∨ (fmt.singleOff : Int) + totalSize xs ≤ (userOff : Int))
+    (hxu : fmt.Exact userOff) (hxm : userOff = 0 → fmt.Exact (minOffset fmt xs).toNat) :
+    Fits fmt xs userOff ∧
+      chosenOffset fmt xs userOff = (if userOff = 0 then (minOffset fmt xs).toNat else userOff) := by
+  have hnn := totalSize_nonneg xs
+  have hm : minOffset fmt xs = (fmt.singleOff : Int) + totalSize xs := rfl
+  unfold Fits chosenOffset
+  unfold Fmt.Exact at hxu
+  rw [hxu]
+  by_cases h0 : userOff = 0
+  · have := (offFill_spec fmt (minOffset fmt xs).toNat).2.1 (hxm h0)
+    rw [if_pos h0, if_pos h0, this]
+    exact ⟨by omega, rfl⟩
+  · rw [if_neg h0, if_neg h0]
+    exact ⟨by omega, rfl⟩
+
+/-- an offset the LIBRARY fills in always leaves room (repaired logic) -/
+theorem fits_library (fmt : Fmt) (xs : List Ext) (userOff : Nat) (h0 : fmt.offRepr userOff = 0) :
+    Fits fmt xs userOff := by
+  unfold Fits chosenOffset
+  rw [if_pos h0]
+  have := (offFill_spec fmt (minOffset fmt xs).toNat).1
+  omega
+
+/-- the two ways a request is honoured: offset left to the library, or an explicit, exactly representable
+    offset not below the minimum -/
+theorem fits_of_request (fmt : Fmt) (xs : List Ext) (userOff : Nat)
+    (hoff : userOff = 0 ∨ ((fmt.singleOff : Int) + totalSize xs ≤ (userOff : Int) ∧ fmt.Exact userOff)) :
+    Fits fmt xs userOff ∧
+      chosenOffset fmt xs userOff = (if userOff = 0 then fmt.offFill (minOffset fmt xs).toNat else userOff) := by
+  have hm : minOffset fmt xs = (fmt.singleOff : Int) + totalSize xs := rfl
+  by_cases h0 : userOff = 0
+  · subst h0
+    refine ⟨fits_library fmt xs 0 (offRepr_zero fmt), ?_⟩
+    unfold chosenOffset
+    rw [if_pos (offRepr_zero fmt), if_pos rfl]
+  · rcases hoff with h | ⟨hge, hx⟩
+    · exact absurd h h0
+    · unfold Fmt.Exact at hx
+      unfold Fits chosenOffset
+      simp only [hx, if_neg h0]
+      exact ⟨by omega, trivial⟩
+
+theorem f32round_div_pos : ∀ (fuel n : Nat), 0 < n → 0 < n / 2 ^ f32exp fuel n := by
+  intro fuel
+  induction fuel with
+  | zero => intro n h; simpa [f32exp] using h
+  | succ fuel ih =>
+      intro n h
+      unfold f32exp
+      split
+      · simpa using h
+      · have h2 : 0 < n / 2 := by omega
+        have := ih (n / 2) h2
+        rw [Nat.pow_succ, Nat.mul_comm, ← Nat.div_div_eq_div_mul]
+        exact this
+
+/-- rounding never produces the "unset" value 0 from a set one -/
+theorem f32round_pos (n : Nat) (h : 0 < n) : 0 < f32round n := by
+  have hq := f32round_div_pos n n h
+  have hp : 0 < 2 ^ f32exp n n := Nat.pow_pos (by omega)
+  have hdm := Nat.div_add_mod n (2 ^ f32exp n n)
+  have hmul := Nat.mul_pos hp hq
+  rcases f32round_cases n with h' | h' <;> omega
+
+theorem offRepr_eq_zero (fmt : Fmt) (n : Nat) : fmt.offRepr n = 0 ↔ n = 0 := by
+  constructor
+  · intro h
+    unfold Fmt.offRepr at h
+    split at h
+    · have := f32round_pos n
+      omega
+    · exact h
+  · intro h; rw [h]; exact offRepr_zero fmt
+
+/-- a single-file save whose STORED offset is not below the minimum: the exact file written -/
 theorem writeSingle_ok (fmt : Fmt) (e : Endian) (xs : List Ext) (userOff : Nat) (bytes data : List Nat)
     (hf : FmtOK fmt) (hok : AllOK xs) (hser : serializeExts e xs = .ok bytes) (hd : data ≠ [])
-    (hoff : userOff = 0 ∨ minOffset fmt xs ≤ (userOff : Int)) :
+    (hfit : minOffset fmt xs ≤ (chosenOffset fmt xs userOff : Int)) :
     writeSingle fmt e xs userOff data =
       .ok ⟨chosenOffset fmt xs userOff,
            extender xs ++ bytes ++ zeros (chosenOffset fmt xs userOff - (fmt.hdrSize + 4 + bytes.length)) ++ data⟩ ∧
-    minOffset fmt xs ≤ (chosenOffset fmt xs userOff : Int) ∧
     fmt.hdrSize + 4 + bytes.length ≤ chosenOffset fmt xs userOff := by
   obtain ⟨bs, hbs, hl, hblk⟩ := extBlock_single e xs hok
   rw [hser] at hbs
@@ -415,23 +697,9 @@ theorem writeSingle_ok (fmt : Fmt) (e : Endian) (xs : List Ext) (userOff : Nat) 
   have hlen : (extender xs ++ bytes).length = 4 + bytes.length := by
     rw [List.length_append, extender_length]
   have hmin : minOffset fmt xs = (fmt.singleOff : Int) + totalSize xs := rfl
-  have hch : chooseOffset fmt xs userOff = .ok ((chosenOffset fmt xs userOff : Nat) : Int) ∧
-      minOffset fmt xs ≤ (chosenOffset fmt xs userOff : Int) := by
-    unfold chooseOffset chosenOffset
-    by_cases h0 : userOff = 0
-    · rw [if_pos h0, if_pos h0]
-      have : ((minOffset fmt xs).toNat : Int) = minOffset fmt xs := by omega
-      rw [this]; exact ⟨rfl, by omega⟩
-    · have hge : minOffset fmt xs ≤ (userOff : Int) := by
-        cases hoff with
-        | inl h => exact absurd h h0
-        | inr h => exact h
-      rw [if_neg h0, if_neg h0, if_neg (by omega)]
-      exact ⟨rfl, hge⟩
-  obtain ⟨hch1, hch2⟩ := hch
-  refine ⟨?_, hch2, by omega⟩
+  refine ⟨?_, by omega⟩
   unfold writeSingle
-  rw [hch1, bind_ok, hblk, bind_ok, if_neg (by omega)]
+  rw [chooseOffset_eq fmt xs userOff hfit, bind_ok, hblk, bind_ok, if_neg (by omega)]
   have ht : ((chosenOffset fmt xs userOff : Nat) : Int).toNat = chosenOffset fmt xs userOff := by omega
   rw [ht]
   show Except.ok (HFile.mk _ (writeAt (extender xs ++ bytes) _ data)) = _
@@ -440,11 +708,33 @@ theorem writeSingle_ok (fmt : Fmt) (e : Endian) (xs : List Ext) (userOff : Nat) 
       chosenOffset fmt xs userOff - (fmt.hdrSize + 4 + bytes.length) := by omega
   rw [hg]
 
+/-- an explicit offset whose STORED value is below the minimum is refused -/
 theorem writeSingle_small (fmt : Fmt) (e : Endian) (xs : List Ext) (userOff : Nat) (data : List Nat)
-    (h0 : userOff ≠ 0) (hsmall : (userOff : Int) < minOffset fmt xs) :
+    (h0 : fmt.offRepr userOff ≠ 0) (hsmall : (fmt.offRepr userOff : Int) < minOffset fmt xs) :
     writeSingle fmt e xs userOff data = .error .headerData := by
-  unfold writeSingle chooseOffset
-  rw [if_neg h0, if_pos hsmall, bind_error]
+  unfold writeSingle chooseOffset chooseOffsetT
+  simp only []
+  have hsmall' : (fmt.offRepr userOff : Int) < (fmt.singleOff : Int) + totalSize xs := hsmall
+  rw [if_neg h0, if_pos hsmall', bind_error]
+
+/-- whatever a successful single-file save wrote into the field is the offset the rule chose -/
+theorem writeSingle_voxOffset (fmt : Fmt) (e : Endian) (xs : List Ext) (userOff : Nat) (data : List Nat) (f : HFile)
+    (hw : writeSingle fmt e xs userOff data = .ok f) :
+    chooseOffset fmt xs userOff = .ok (f.voxOffset : Int) ∧ fmt.hdrSize ≤ f.voxOffset := by
+  unfold writeSingle at hw
+  cases hc : chooseOffset fmt xs userOff with
+  | error er => rw [hc, bind_error] at hw; cases hw
+  | ok off =>
+      rw [hc, bind_ok] at hw
+      cases hb : extBlock true e xs with
+      | error er => rw [hb, bind_error] at hw; cases hw
+      | ok blk =>
+          rw [hb, bind_ok] at hw
+          split at hw
+          · cases hw
+          · cases hw
+            simp only [Except.ok.injEq]
+            omega
 
 /-! ### the recursion budget of the reader is never exhausted -/
 
